@@ -39,6 +39,9 @@ pub enum Fault {
     /// event-anchored: armed at `at`; the voter that sends the `nth` granted vote response from then on is
     /// crashed at that instant (reply on its way, whatever it persisted is all that survives)
     CrashOnGrant { at: u64, nth: u32, power_loss: bool, down_ms: u64 },
+    /// event-anchored: armed at `at`; the node that makes the `nth` transition to Leader from then on is cut off
+    /// from everybody at that instant (its no-op is in its own log only) for `dur` ms, or crashed (`crash`)
+    IsolateNewLeader { at: u64, nth: u32, dur: u64, crash: bool },
 }
 
 impl Fault {
@@ -56,7 +59,8 @@ impl Fault {
             | Fault::ApplyStall { at, .. }
             | Fault::DropRate { at, .. }
             | Fault::Join { at, .. }
-            | Fault::CrashOnGrant { at, .. } => *at,
+            | Fault::CrashOnGrant { at, .. }
+            | Fault::IsolateNewLeader { at, .. } => *at,
         }
     }
     pub fn kind_name(&self) -> &'static str {
@@ -75,6 +79,8 @@ impl Fault {
             Fault::DropRate { .. } => "drop_rate",
             Fault::Join { .. } => "join",
             Fault::CrashOnGrant { .. } => "crash_on_vote_grant",
+            Fault::IsolateNewLeader { crash: true, .. } => "crash_new_leader_before_first_replication",
+            Fault::IsolateNewLeader { .. } => "isolate_new_leader_before_first_replication",
         }
     }
 }
@@ -284,7 +290,7 @@ fn gen_knobs(r: &mut Rng, scenario: &str) -> Knobs {
             k.max_pending_writes = 10_000;
             k.general_timeout_ms = 1000;
         }
-        "lease" | "linread" => {
+        "lease" | "linread" | "leaselearner" => {
             // make the requested policies effective so the reads are really strong reads
             k.allow_override = true;
         }
@@ -305,7 +311,7 @@ fn gen_clients(r: &mut Rng, n_clients: u32, n_nodes: u32, horizon: u64, keys: u8
             t += gap;
             let roll = r.below(100);
             let kind = match scenario {
-                "lease" | "linread" => match roll {
+                "lease" | "linread" | "leaselearner" => match roll {
                     0..=34 => OpKind::Put,
                     35..=39 => OpKind::Delete,
                     40..=47 => OpKind::Cas(r.below(3) as u8),
@@ -313,6 +319,16 @@ fn gen_clients(r: &mut Rng, n_clients: u32, n_nodes: u32, horizon: u64, keys: u8
                     70..=91 => OpKind::ReadLease,
                     92..=95 => OpKind::ReadDefault,
                     _ => OpKind::ReadEventual,
+                },
+                "deadline" => match roll {
+                    0..=29 => OpKind::Put,
+                    30..=37 => OpKind::Cas(r.below(3) as u8),
+                    38..=41 => OpKind::Delete,
+                    42..=79 => OpKind::ReadLin,
+                    80..=89 => OpKind::ReadLease,
+                    90..=93 => OpKind::Scan,
+                    94..=96 => OpKind::MultiRead,
+                    _ => OpKind::ReadDefault,
                 },
                 "watch" => match roll {
                     0..=54 => OpKind::Put,
@@ -384,14 +400,16 @@ fn gen_faults(r: &mut Rng, scenario: &str, horizon: u64, n_voters: u32, masked: 
             "election" => match roll {
                 0..=21 => Fault::Partition { at, dur: r.range(200, 4000), side: vec![NodeSel::Leader] },
                 // split the cluster in two groups (an exact half for even voter counts)
-                22..=29 => Fault::Partition { at, dur: r.range(500, 5000), side: vec![NodeSel::Leader, sel_follower(r)] },
+                22..=25 => Fault::Partition { at, dur: r.range(500, 5000), side: vec![NodeSel::Leader, sel_follower(r)] },
+                // a leader that never gets to replicate anything of its term (not even its no-op)
+                26..=29 => Fault::IsolateNewLeader { at: if r.chance(1, 2) { 0 } else { at }, nth: r.range(1, 2) as u32, dur: r.range(800, 4000), crash: r.chance(1, 4) },
                 30..=39 => Fault::CrashOnGrant { at: if r.chance(1, 3) { 0 } else { at }, nth: r.range(1, 4) as u32, power_loss: r.chance(1, 2), down_ms: r.range(10, 400) },
                 40..=54 => Fault::Crash { at, node: sel_any(r), power_loss: r.chance(1, 2), down_ms: r.range(100, 3000) },
                 55..=69 => Fault::OneWay { at, dur: r.range(200, 3000), node: NodeSel::Leader, outbound: r.chance(1, 2) },
                 70..=84 => Fault::SlowReturn { at, dur: r.range(300, 3000), node: NodeSel::Leader, extra_ms: r.range(50, 900) },
                 _ => Fault::BreakStreams { at, a: NodeSel::Leader, b: sel_follower(r) },
             },
-            "lease" | "linread" => match roll {
+            "lease" | "linread" | "leaselearner" => match roll {
                 0..=39 => {
                     // leader plus (sometimes) one follower cut off from the majority
                     let mut side = vec![NodeSel::Leader];
@@ -423,6 +441,13 @@ fn gen_faults(r: &mut Rng, scenario: &str, horizon: u64, n_voters: u32, masked: 
                 50..=69 => Fault::Crash { at, node: sel_follower(r), power_loss: false, down_ms: r.range(500, 4000) },
                 70..=84 => Fault::SlowLink { at, dur: r.range(500, 4000), src: NodeSel::Leader, dst: sel_follower(r), extra_ms: r.range(50, 600) },
                 _ => Fault::BreakStreams { at, a: NodeSel::Leader, b: sel_follower(r) },
+            },
+            "newleader" => match roll {
+                // leaders that never replicate anything of their term: their log ends in a term nobody else knows
+                0..=64 => Fault::IsolateNewLeader { at: if r.chance(1, 2) { 0 } else { at }, nth: r.range(1, 2) as u32, dur: r.range(800, 4000), crash: r.chance(1, 5) },
+                65..=79 => Fault::Partition { at, dur: r.range(200, 3000), side: vec![NodeSel::Leader] },
+                80..=89 => Fault::Crash { at, node: sel_follower(r), power_loss: false, down_ms: r.range(200, 2000) },
+                _ => Fault::SlowLink { at, dur: r.range(200, 3000), src: NodeSel::Leader, dst: sel_follower(r), extra_ms: r.range(20, 400) },
             },
             "membership" => match roll {
                 // after a promotion the leader must need the new configuration's majority: cut it off alone or with
@@ -470,13 +495,18 @@ fn gen_faults(r: &mut Rng, scenario: &str, horizon: u64, n_voters: u32, masked: 
                 73..=79 => Fault::BreakStreams { at, a: NodeSel::Leader, b: sel_follower(r) },
                 80..=85 => Fault::DiskStall { at, node: sel_any(r), dur: r.range(50, 1500) },
                 86..=91 => Fault::ApplyStall { at, node: sel_any(r), dur: r.range(50, 1500) },
-                92..=95 => Fault::OneWay { at, dur: r.range(200, 3000), node: sel_any(r), outbound: r.chance(1, 2) },
+                92..=94 => Fault::OneWay { at, dur: r.range(200, 3000), node: sel_any(r), outbound: r.chance(1, 2) },
+                95..=96 => Fault::IsolateNewLeader { at, nth: 1, dur: r.range(800, 4000), crash: false },
                 _ => Fault::DropRate { at, dur: r.range(200, 3000), per_mille: r.range(20, 300) },
             },
         };
         // containment of open known findings (DESIGN.md §8)
         let skip = match &item {
-            Fault::Crash { .. } | Fault::FullRestart { .. } | Fault::CrashOnGrant { .. } if is_masked("nongraceful_crash") => true,
+            Fault::Crash { .. } | Fault::FullRestart { .. } | Fault::CrashOnGrant { .. } | Fault::IsolateNewLeader { crash: true, .. }
+                if is_masked("nongraceful_crash") =>
+            {
+                true
+            }
             Fault::Crash { power_loss: true, .. } if is_masked("power_loss") => true,
             _ => false,
         };
@@ -489,17 +519,18 @@ fn gen_faults(r: &mut Rng, scenario: &str, horizon: u64, n_voters: u32, masked: 
 }
 
 pub const SCENARIOS: &[&str] =
-    &["watch", "reelect", "staletail", "general", "calm", "election", "lease", "durability", "lag", "snapshot", "deadline", "membership", "routing"];
+    &["leaselearner", "newleader", "watch", "reelect", "staletail", "general", "calm", "election", "lease", "durability", "lag", "snapshot", "deadline", "membership", "routing"];
 
 pub fn gen_plan(seed: u64, scenario: &str, masked: &[String]) -> Plan {
     let mut r = Rng::new(seed ^ 0xC1u64.rotate_left(40));
     let mut kr = r.fork(1);
     let knobs = gen_knobs(&mut kr, scenario);
     let n_voters: u32 = match scenario {
-        "lease" | "linread" => *r.pick(&[3u32, 5, 5]),
+        "lease" | "linread" | "leaselearner" => *r.pick(&[3u32, 5, 5]),
         "membership" => *r.pick(&[1u32, 3, 3]),
         "routing" => 3,
         "reelect" => *r.pick(&[3u32, 3, 5]),
+        "newleader" => *r.pick(&[3u32, 3, 5]),
         // even voter counts are legal configurations too (majority of 4 is 3, of 2 is 2)
         _ => *r.pick(&[1u32, 2, 3, 3, 3, 4, 5]),
     };
@@ -514,6 +545,7 @@ pub fn gen_plan(seed: u64, scenario: &str, masked: &[String]) -> Plan {
         || (scenario == "general" && r.chance(1, 5))
         || (scenario == "routing" && r.chance(1, 2))
         || (scenario == "lease" && r.chance(1, 3))
+        || scenario == "leaselearner"
     {
         let n_l = r.range(1, 2) as u32;
         for i in 0..n_l {
@@ -522,12 +554,12 @@ pub fn gen_plan(seed: u64, scenario: &str, masked: &[String]) -> Plan {
             let at = if r.chance(1, 2) { r.range(1000, 3000) } else { r.range(1000, horizon / 2) };
             faults.push(Fault::Join { at, node: id });
         }
-        if scenario == "lease" {
+        if scenario == "lease" || scenario == "leaselearner" {
             // a leader cut off from the voters may still reach a learner (learner ACKs must not count)
             let l0 = learners[0];
             for f in faults.iter_mut() {
                 if let Fault::Partition { side, .. } = f {
-                    if side.contains(&NodeSel::Leader) && r.chance(1, 2) {
+                    if side.contains(&NodeSel::Leader) && (scenario == "leaselearner" || r.chance(1, 2)) {
                         side.push(NodeSel::Id(l0));
                     }
                 }
@@ -560,7 +592,8 @@ pub fn gen_plan(seed: u64, scenario: &str, masked: &[String]) -> Plan {
         faults.retain(|f| !matches!(f, Fault::Join { node, .. } if drop.contains(node)));
     }
     let keys = r.range(2, 5) as u8;
-    let n_clients = r.range(1, 5) as u32;
+    // (deadline: many clients so that several requests are outstanding at one node at staggered times)
+    let n_clients = if scenario == "deadline" { r.range(3, 12) as u32 } else { r.range(1, 5) as u32 };
     let clients = {
         let mut cr = r.fork(3);
         gen_clients(&mut cr, n_clients, n_voters + learners.len() as u32, horizon, keys, scenario)
